@@ -316,9 +316,46 @@ fn replay_asnset(s: &mut Summary, c: &Value) {
     s.eval(if xs.len() + ys.len() >= 2 { Some(&key) } else { None });
 }
 
+/// The same laws as AsnSet.tla states them (sorted, duplicate-free, the four operations are the mathematical ones), natively on
+/// sets of up to 300 numbers drawn with repeats from a small range, so that whatever is done differently past some size - a
+/// sort, a bisection, a bulk copy - is done here too.
+fn asnset_sizes(s: &mut Summary) {
+    use std::collections::BTreeSet;
+    let mut rng = Rng::new(20260925);
+    for round in 0..400u64 {
+        let (na, nb) = (rng.below(if round % 4 == 0 { 300 } else { 24 }) as usize, rng.below(if round % 3 == 0 { 300 } else { 24 }) as usize);
+        let span = [8u64, 40, 400][(round % 3) as usize];
+        let base = [0u32, 64496, u32::MAX - 400][(round % 3) as usize];
+        let xs: Vec<Asn> = (0..na).map(|_| Asn::from_u32(base + rng.below(span) as u32)).collect();
+        let ys: Vec<Asn> = (0..nb).map(|_| Asn::from_u32(base + rng.below(span) as u32)).collect();
+        let r = guarded(|| -> Result<(), String> {
+            let (a, b): (SmallAsnSet, SmallAsnSet) = (xs.iter().copied().collect(), ys.iter().copied().collect());
+            let (ma, mb): (BTreeSet<Asn>, BTreeSet<Asn>) = (xs.iter().copied().collect(), ys.iter().copied().collect());
+            let v = |i: &mut dyn Iterator<Item = Asn>| i.collect::<Vec<Asn>>();
+            let m = |i: &mut dyn Iterator<Item = &Asn>| i.copied().collect::<Vec<Asn>>();
+            for (what, got, want) in [("from_iter", v(&mut a.iter()), m(&mut ma.iter())), ("union", v(&mut a.union(&b)), m(&mut ma.union(&mb))),
+                                      ("intersection", v(&mut a.intersection(&b)), m(&mut ma.intersection(&mb))), ("difference", v(&mut a.difference(&b)), m(&mut ma.difference(&mb))),
+                                      ("symmetric_difference", v(&mut a.symmetric_difference(&b)), m(&mut ma.symmetric_difference(&mb)))] {
+                if got != want { return Err(format!("{what} of sets built from {na} and {nb} numbers has {} members, the mathematical one {}", got.len(), want.len())); }
+            }
+            if a.len() != ma.len() || xs.iter().any(|x| !a.contains(*x)) || (0..span as u32).any(|d| a.contains(Asn::from_u32(base + d)) != ma.contains(&Asn::from_u32(base + d))) {
+                return Err("len() / contains() disagree with the members".into());
+            }
+            Ok(())
+        });
+        match r {
+            Ok(Ok(())) => {}
+            Ok(Err(m)) => s.violation("asnset:sizes", m, json!({"round": round, "na": na, "nb": nb})),
+            Err(m) => s.violation("asnset:panic", m, json!({"round": round})),
+        }
+        s.evals(1);
+    }
+}
+
 pub fn replay(args: &[String]) {
     let cases = read_cases(&args[0]);
     let mut s = Summary::new();
+    asnset_sizes(&mut s);
     for c in &cases {
         match c["op"].as_str().unwrap_or("") {
             "pair" => replay_pair(&mut s, c),
